@@ -596,6 +596,7 @@ pub fn run_hist(hp: &HP, seed: u64, steps: Option<&[Step]>) -> HistRun {
     let mut probe_warm_joined = false;
     // the number of a Ping just sent to the warm-up member, to be acknowledged next
     let mut owed_ack: Option<u8> = None;
+    let mut warm_budget: u32 = 40 * (hp.warmup_flaps + hp.warmup_probe_rounds) + 1;
     let mut generated = 0usize;
     let mut i = 0usize;
     loop {
@@ -611,6 +612,13 @@ pub fn run_hist(hp: &HP, seed: u64, steps: Option<&[Step]>) -> HistRun {
                 s[i - 1].clone()
             }
             None if probe_warm_left > 0 => {
+                // (bounded: an instance that cannot ping - packets smaller than a header, say - would otherwise
+                // keep its periodic timers going for ever)
+                warm_budget = warm_budget.saturating_sub(1);
+                if warm_budget == 0 {
+                    probe_warm_left = 0;
+                    continue;
+                }
                 if !probe_warm_joined {
                     probe_warm_joined = true;
                     Step::In(Input::ApplyMany(vec![Member::new(warm_id, 0, State::Alive)], false))
@@ -624,7 +632,11 @@ pub fn run_hist(hp: &HP, seed: u64, steps: Option<&[Step]>) -> HistRun {
                     Step::NextTimer
                 }
             }
-            None if warm_left > 0 => match warm_phase {
+            None if warm_left > 0 && warm_budget == 0 => {
+                warm_left = 0;
+                continue;
+            }
+            None if warm_left > 0 => match { warm_budget -= 1; warm_phase } {
                 0 => {
                     warm_phase = 1;
                     Step::In(Input::ApplyMany(vec![Member::new(warm_id, 0, State::Alive)], false))
